@@ -84,6 +84,13 @@ func main() {
 			usage()
 		}
 		wireCmd(os.Args[2], os.Args[3], os.Args[4])
+	case "advdump":
+		c := newCheck("dev", "quick")
+		if r := loadRepoFuncs(c, "./internal/tlast"); r != nil {
+			for _, l := range lexerAdvanceDump(r) {
+				fmt.Println(l)
+			}
+		}
 	case "explain":
 		if len(os.Args) < 3 {
 			usage()
